@@ -24,6 +24,8 @@ def add_obligations(pack, tier):
     # the physical input data as read from a MATPOWER case (taps, phase shifts, shunts, loads, generators): contract shared with C13
     from contracts import fn_io
     run_contracts(pack, [(fn_io.mpc2system('C01'),)])
+    # ... and from a PSS/E RAW file: the load, shunt, generator and branch records (contracts shared with C13)
+    run_contracts(pack, [(fn_io.psse_load('C01'), None, fn_io.replay_psse_load), (fn_io.psse_fshunt('C01'),), (fn_io.psse_gen('C01'),), (fn_io.psse_line('C01'),)])
     # end-to-end bounded stand-in: power balance of converged solutions against the raw input data
     from contracts.packutil import native_guard
     from contracts import bounded_pflow_balance as BP
